@@ -299,3 +299,45 @@ class sky_membership_of_a_batch_of_positions:
     call = lambda self, scs, wcs: (self.contains(scs, wcs), self.to_pixel(wcs).contains(pixcoord_of(wcs, scs)))
     post = {'same_answer_for_every_position': lambda scs, result, K:
             (not (0 <= K and K < len(scs))) or _answer_at(result[0], K) == _answer_at(result[1], K)}
+
+
+# ---------------------------------------------------------------------------- sky compounds of arbitrary operands
+ANY_SKY = 'spec/abstract_region.py::AnySkyRegion'
+
+
+@contract(COMPOUND_SKY + '.contains', props=['C06', 'C08'])
+class compound_sky_contains_for_any_operands:
+    """operator(answer of region1, answer of region2) - in that order: `gt` (a and not b) tells the operands apart -, complemented as a
+    whole when the compound is excluded, for operands with arbitrary (abstract) membership and their own include flags, scalar and
+    array positions"""
+    cases = {op + '-' + q: {'op': op, 'q': q} for op in ('and_', 'or_', 'xor', 'gt') for q in ('scalar', 'array')}
+
+    def setup(B, op='and_', q='scalar'):
+        from contracts.common import mk_meta, mk_visual
+        r1 = B.new(ANY_SKY, label='r1', rid=B.int('r1.rid'), meta=mk_meta(B, 'r1.meta', 'bool'), visual=mk_visual(B, 'r1.visual'))
+        r2 = B.new(ANY_SKY, label='r2', rid=B.int('r2.rid'), meta=mk_meta(B, 'r2.meta', 'bool'), visual=mk_visual(B, 'r2.visual'))
+        c = B.new(COMPOUND_SKY, label='c', region1=r1, region2=r2, _operator=operator_of(op), meta=mk_meta(B, 'c.meta', 'bool'),
+                  visual=mk_visual(B, 'c.visual'))
+        return dict(self=c, skycoord=sky(B, 'q') if q == 'scalar' else sky_array_of(B, 'q'), wcs=B.wcs('w'), op=op, q=q)
+    forall = {'k': 'int'}
+    post = {
+        'operation_of_operand_answers_in_order': lambda self, skycoord, wcs, op, q, result, k: _compound_answer(self, skycoord, wcs, op, q, result, k),
+    }
+
+
+def sky_array_of(B, name):
+    from astropy.coordinates import SkyCoord
+    import astropy.units as u
+    n = B.int(name + '.n')
+    return B.call(SkyCoord, B.call(u.Quantity, B.array(name + '.lons', (n,)), u.deg), B.call(u.Quantity, B.array(name + '.lats', (n,)), u.deg),
+                  frame='icrs')
+
+
+def _compound_answer(self, skycoord, wcs, op, q, result, k):
+    from vprim import arr_at, implies
+    a, b = self.region1.contains(skycoord, wcs), self.region2.contains(skycoord, wcs)
+    inc = bool(self.meta.get('include', True))
+    if q == 'scalar':
+        return bool(result) == (bool(operator_of(op)(bool(a), bool(b))) == inc)
+    return implies(0 <= k and k < len(skycoord.spherical.lon),
+                   bool(arr_at(result, k)) == (bool(operator_of(op)(bool(arr_at(a, k)), bool(arr_at(b, k)))) == inc))
